@@ -640,3 +640,35 @@ func zzH_C05_diff_roundtrip(t *zzT) {
 	t.ObserveBytes("enc", enc)
 	t.Reach("end")
 }
+
+// C12.a "through any key-prefix view": sibling views derived from ONE parent whose prefix slice has
+// spare capacity (a prefix built by a growing append, e.g. store prefix ‖ module prefix) must stay
+// independent: deriving a second sibling must not change the key space of the first one. Views are
+// derived on two levels (root -> mid -> a, b); the root prefix is handed in with capacity 8.
+// (seed C12-5: WithPrefix built the derived prefix with append on the parent's slice.)
+//
+//zz:opt loop=16
+func zzH_C12_sibling_views_independent(t *zzT) {
+	store := &zzModelStore{}
+	buf := make([]byte, 1, 8)
+	buf[0] = t.U8("root.prefix")
+	root := New(store, buf)
+	mid := root.WithPrefix(t.Bytes("mid.prefix", 1))
+	pa, pb := t.Bytes("a.prefix", 1), t.Bytes("b.prefix", 1)
+	t.Assume(pa[0] != pb[0])
+	a := mid.WithPrefix(pa)
+	wantA := zzCat(zzCat(zzCat([]byte{}, buf[:1]), mid.prefix[1:2]), pa)
+	b := mid.WithPrefix(pb)
+	wantB := zzCat(zzCat(zzCat([]byte{}, buf[:1]), mid.prefix[1:2]), pb)
+	t.Assert(bytes.Equal(a.prefix, wantA) && a.prefixLength == 3, "a sibling view keeps its own prefix after another sibling is derived")
+	t.Assert(bytes.Equal(b.prefix, wantB) && b.prefixLength == 3, "the second sibling has parent prefix ‖ its own")
+	k, v := t.Bytes("k", 1), t.Bytes("v", 1)
+	a.Set(k, v)
+	_, inB := b.Get(k)
+	t.Assert(!inB, "a write through one sibling is invisible through the other")
+	got, inRoot := root.Get(zzCat(zzCat(zzCat([]byte{}, mid.prefix[1:2]), pa), k))
+	t.Assert(inRoot && bytes.Equal(got, v), "a write through a nested view is read through the root under parent ‖ view ‖ key")
+	ga, inA := a.Get(k)
+	t.Assert(inA && bytes.Equal(ga, v), "the writing view reads its own write")
+	t.Reach("end")
+}
